@@ -15,6 +15,7 @@ RULE = ('(a) every pattern of (buy|sell) x (smaller|equal|larger than the curren
         'realised = total - unrealised; re-mark leaves realised P&L and quantity bit-identical. Non-trivial: an epoch '
         'with fills on both sides and non-zero commission on both; distinct = distinct (request kind, side) sequence.')
 RULE += ' 12% of the proportional commissions are negative (rebates).'
+RULE += ' Portfolio-level histories: in a fifth of the cases a second asset mirrors every fill and mark of the first (bit-identical per-position figures).'
 ASSUMPTIONS = [
     'tolerance 1e-9 x (sum |price x quantity| + |market value| + commissions + 1); measured error ~1e-14',
     'the statement is algebraic over the reals; monitoring shows it on every path class with many real draws, not for all reals',
